@@ -11,6 +11,7 @@ import EEM.Gen.SplitCandidates
 import EEM.Model.Window
 import EEM.Model.BillingAgg
 import EEM.Model.PredictFrame
+import EEM.Model.Metrics
 
 open EEM EEM.Proto EEM.Model
 
@@ -329,6 +330,54 @@ def opPFrame (args : List String) : String :=
     | _, _, _, _ => "bad-op"
   | _ => "bad-op"
 
+def parseFin (s : String) : Option (Option Float) :=
+  if s == "x" then some none else (parseFloat s).map some
+
+def showOptF : Option Float → String
+  | some f => showFloat f
+  | none => "none"
+
+open EEM.Model.Metrics in
+/-- `metrics <num_params> <obs pred>...` (`x` = not finite) -/
+def opMetrics (args : List String) : String :=
+  match args with
+  | k :: rest =>
+    let rec rows : List String → Option (List (Option Float × Option Float))
+      | [] => some []
+      | a :: b :: more => do
+        let a ← parseFin a; let b ← parseFin b; let r ← rows more
+        pure ((a, b) :: r)
+      | _ => none
+    match parseNat k, rows rest with
+    | some k, some rs =>
+      let ps := finitePairs rs
+      if ps.isEmpty then "ok empty" else
+      "ok " ++ " ".intercalate [
+        s!"n={ps.length}", s!"ddof={ddof ps k}", s!"sse={showFloat (sse ps)}", s!"mse={showFloat (mse ps)}",
+        s!"rmse={showFloat (rmse ps)}", s!"rmse_adj={showFloat (rmseAdj ps k)}", s!"mae={showFloat (mae ps)}",
+        s!"mbe={showFloat (mbe ps)}", s!"mean_obs={showFloat (mean (obs ps))}", s!"var_obs={showFloat (variance (obs ps))}",
+        s!"r_squared={showFloat (rSquared ps)}",
+        s!"iqr={showFloat (iqr (obs ps))}", s!"cvrmse={showOptF (cvrmse ps)}", s!"cvrmse_adj={showOptF (cvrmseAdj ps k)}",
+        s!"pnrmse={showOptF (pnrmse ps)}", s!"pnrmse_adj={showOptF (pnrmseAdj ps k)}", s!"nmae={showOptF (nmae ps)}",
+        s!"nmbe={showOptF (nmbe ps)}", s!"autocorr={showFloat (autocorr1 ps)}", s!"savings={showFloat (savings ps)}"]
+    | _, _ => "bad-op"
+  | _ => "bad-op"
+
+/-- `hgate <cv|none> <pn|none> <cv_thr> <pn_thr>` and `dgate <cvrmse> <thr>` -/
+def opHGate (args : List String) : String :=
+  match args with
+  | [cv, pn, a, b] =>
+    let po := fun (s : String) => if s == "none" then some none else (parseFloat s).map some
+    match po cv, po pn, parseFloat a, parseFloat b with
+    | some cv, some pn, some a, some b => if Model.Metrics.hourlyFitAcceptable cv pn a b then "ok acceptable" else "ok disqualified"
+    | _, _, _, _ => "bad-op"
+  | _ => "bad-op"
+
+def opDGate (args : List String) : String :=
+  match args.mapM parseFloat with
+  | some [c, t] => if Model.Metrics.dailyDisqualified c t then "ok disqualified" else "ok acceptable"
+  | _ => "bad-op"
+
 def step (line : String) : String :=
   match words line with
   | "submodel" :: args => opPredictSubmodel args
@@ -351,6 +400,9 @@ def step (line : String) : String :=
   | "agg" :: args => opAgg args
   | "parseagg" :: args => opParseAgg args
   | "pframe" :: args => opPFrame args
+  | "metrics" :: args => opMetrics args
+  | "hgate" :: args => opHGate args
+  | "dgate" :: args => opDGate args
   | _ => "bad-op"
 
 partial def loop (h : IO.FS.Stream) (out : IO.FS.Stream) : IO Unit := do
